@@ -495,7 +495,7 @@ Theorem merged_err_closed_form z px rx pt rt :
   kdiv (kmul rt (ksub px pt)) (kmul (ksub z px) (ksub z pt)).
 Proof.
   intros H1 H2. unfold ev_err. cbn [chain_err]. unfold fz. cbn [fst snd].
-  rewrite !gf_term_eval_char, gf_term_add_char. field. split; assumption.
+  rewrite !gf_term_eval_char, (gf_term_add_char K NO rx rt). field. split; assumption.
 Qed.
 
 Theorem negligible_err_closed_form z px rx pt rt :
@@ -504,6 +504,6 @@ Theorem negligible_err_closed_form z px rx pt rt :
   ksub (kdiv (kmul rt (ksub px pt)) (kmul (ksub z px) (ksub z pt))) (kdiv (kadd rx rt) (ksub z px)).
 Proof.
   intros H1 H2. unfold ev_err. cbn [chain_err]. unfold fz. cbn [fst snd].
-  rewrite !gf_term_eval_char, gf_term_add_char. field. split; assumption.
+  rewrite !gf_term_eval_char, (gf_term_add_char K NO rx rt). field. split; assumption.
 Qed.
 End MergeErr.
